@@ -367,3 +367,11 @@ def limit_law_public(fname, args):
 def limit_law_harness(call):
     from props.c11 import eval_call
     return eval_call(call)[2]
+
+
+def harness_call(harness_file, call):
+    """Evaluate one call of a harness function (harness/<file>) on concrete values against the real code."""
+    import os
+    from engine import xh
+    from engine.common import VERIF
+    return xh.eval_call(os.path.join(VERIF, 'harness', harness_file), call)[2]
